@@ -145,6 +145,8 @@ def term_upd(case):
 
 
 def judge_upd(ctx, case, impl, model):
+    if 'exc' not in impl:
+        _upd_oracles(ctx, case, impl)
     if 'exc' in impl or model.startswith('E:'):
         if ('exc' in impl) != model.startswith('E:') or (model.startswith('E:') and model[2:].split(':')[0] != impl.get('exc')):
             ctx.corr_break('corr:Verdict.update_snr', 'exception mismatch', case, impl=impl, model=model)
@@ -157,6 +159,9 @@ def judge_upd(ctx, case, impl, model):
                 ctx.corr_break('corr:Verdict.update_snr', f'channel {k} figure {j}: impl {a} dB, model {b} dB', case,
                                impl=a, model=b)
                 return
+
+
+def _upd_oracles(ctx, case, impl):
     # oracle on the implementation alone: raw figures untouched, no accumulation over the history
     if impl['raw'] != case['raw']:
         ctx.violation('raw_figures_modified', 'update_snr changed the raw (line only) figures', case)
@@ -273,6 +278,7 @@ def term_pen(case):
 
 
 def judge_pen(ctx, case, impl, model):
+    _pen_oracles(ctx, case, impl)
     parts = model.split('#')
     for j in range(3):
         if parts[j] == '-':
@@ -289,6 +295,10 @@ def judge_pen(ctx, case, impl, model):
         if not close_db(a, bv):
             ctx.corr_break('corr:Verdict.calc_penalties', f'channel {k}: impl {a}, model {bv}', case, impl=a, model=bv)
             return
+
+
+def _pen_oracles(ctx, case, impl):
+    """the property on the implementation's own result (independent of the model comparison)"""
     # oracle: the tables kept at load are the listed ones: every listed impairment, every listed point (+ at most (0,0))
     for j in range(3):
         raw, it = case['tabs'][j], impl['norm'][j]
@@ -515,15 +525,15 @@ def request_json(rid, src, dst, mode, spacing, bidir, tx_power=None, power=None,
             'dst-tp-id': f'trx {dst}', 'bidirectional': bidir, 'path-constraints': {'te-bandwidth': te}}
 
 
-def fresh_propagation(E, path, req, br, off, roll_off):
+def fresh_propagation(E, path, req, br, off, roll_off, spectrum=None):
     E._paths.append(path)
-    key = (id(path), float(br), float(off), roll_off, req.spacing, req.tx_power)
+    key = (id(path), float(br), float(off), roll_off, req.spacing, req.tx_power, id(spectrum) if spectrum else None)
     if key not in E.cache:
-        E.cache[key] = _fresh_propagation(E, path, req, br, off, roll_off)
+        E.cache[key] = _fresh_propagation(E, path, req, br, off, roll_off, spectrum)
     return E.cache[key]
 
 
-def _fresh_propagation(E, path, req, br, off, roll_off):
+def _fresh_propagation(E, path, req, br, off, roll_off, spectrum=None):
     """independent propagation of one (baud rate, offset) on a private copy of the designed path; returns the receiver's
     raw (line only) GSNR in 0.1 nm and impairments, plus what the crossed ROADMs say about their add/drop OSNR"""
     import numpy as np
@@ -531,8 +541,13 @@ def _fresh_propagation(E, path, req, br, off, roll_off):
     from gnpy.core.elements import Roadm, Edfa
     from gnpy.topology.request import filter_si
     p = copy.deepcopy(path)
-    si = create_input_spectral_information(f_min=req.f_min, f_max=req.f_max, roll_off=roll_off, baud_rate=br,
-                                           spacing=req.spacing, tx_osnr=None, tx_power=req.tx_power, delta_pdb=off)
+    if spectrum:
+        # user-defined initial spectrum: the comb is the one the partitions describe (mode baud rate / offset not used)
+        from gnpy.core.info import carriers_to_spectral_information
+        si = carriers_to_spectral_information(initial_spectrum=spectrum, power=req.power)
+    else:
+        si = create_input_spectral_information(f_min=req.f_min, f_max=req.f_max, roll_off=roll_off, baud_rate=br,
+                                               spacing=req.spacing, tx_osnr=None, tx_power=req.tx_power, delta_pdb=off)
     si = filter_si(p, E.eq, si)
     clamped = False
     for i, el in enumerate(p):
@@ -586,8 +601,33 @@ def add_drop_contrib(E, path, freqs):
 
 
 def rx_g01(raw01, contrib, tx_osnr):
-    """receiver GSNR (0.1 nm, dB): line + ROADM stages + transmitter, each once"""
-    return [to_db(inv(r) + c + inv(tx_osnr)) for r, c in zip(raw01, contrib)]
+    """receiver GSNR (0.1 nm, dB): line + ROADM stages + transmitter, each once; tx_osnr is the mode's value or, with a
+    user-defined spectrum, one value per channel (each channel counts ITS OWN transmitter)"""
+    tx = tx_osnr if isinstance(tx_osnr, list) else [tx_osnr] * len(raw01)
+    return [to_db(inv(r) + c + inv(t)) for r, c, t in zip(raw01, contrib, tx)]
+
+
+def gen_spectrum(rng, env):
+    """partitions of a user-defined initial spectrum inside the band (as the transmission example / worker_utils take
+    them): 1-3 partitions with their own slot width, baud rate, power offset, transmitter power and transmitter OSNR"""
+    hi = F0 + (env['nch'] + 0.5) * 50e9
+    cursor = F0 + 25e9
+    parts = []
+    for _ in range(rng.choice([1, 2, 2, 3])):
+        slot = rng.choice([37.5e9, 50e9, 50e9, 75e9])
+        n = rng.randint(1, 4)
+        while n > 0 and cursor + n * slot > hi:
+            n -= 1
+        if n == 0:
+            break
+        f_min = cursor + slot / 2
+        parts.append({'f_min': f_min, 'f_max': f_min + (n - 1) * slot, 'baud_rate': rng.choice([b for b in BAUDS if b * 1.15 <= slot]),
+                      'slot_width': slot, 'roll_off': 0.15, 'delta_pdb': rng.choice([0, 0, 1, -1, 3]),
+                      'tx_osnr': rng.choice([24, 30, 35, 40, 45]), 'tx_power_dbm': rng.choice([0, 0, -3, 2])})
+        cursor = f_min + (n - 1) * slot + slot / 2 + rng.choice([0, 0, 12.5e9])
+    if sum(int(round((p_['f_max'] - p_['f_min']) / p_['slot_width'])) + 1 for p_ in parts) < 2:
+        return None
+    return parts
 
 
 def metric_py(g01, tot_pen):
@@ -750,10 +790,11 @@ def gen_decision(rng, big=False):
             'tabscale': [[rng.choice([0.9, 0.999, 1.0, 1.0, 1.001, 1.001, 1.2, 1.2, 3, 3, 3, 10, 10, 10, 10, 10, -0.25, -0.5, -0.75, -0.9])
                           for _ in range(3)]
                          for _ in modes],
-            'tabseed': rng.randrange(1 << 30), 'nosnr': auto and rng.random() < 0.04}
+            'tabseed': rng.randrange(1 << 30), 'nosnr': auto and rng.random() < 0.04,
+            'spectrum': gen_spectrum(rng, env) if (not auto and rng.random() < 0.4) else None}
 
 
-def complete_modes(E, case, path, req_probe):
+def complete_modes(E, case, path, req_probe, spectrum=None, tx_list=None):
     """thresholds and penalty tables are drawn relative to what the path really shows, so that boundary situations
     (metric within 0.01 dB of the threshold, impairment exactly at / just beyond the last tabulated value) are common.
     Deterministic function of the case; the completed library is stored in the case (replays use it as is)."""
@@ -761,7 +802,7 @@ def complete_modes(E, case, path, req_probe):
     if case.get('modes_final'):
         return case['modes_final']
     rng = random.Random(case['tabseed'])
-    contrib = add_drop_contrib(E, path, channel_freqs(req_probe))
+    contrib = add_drop_contrib(E, path, sorted(spectrum) if spectrum else channel_freqs(req_probe))
     out, frs = [], []
     for k, m in enumerate(case['modes']):
         m = dict(m)
@@ -772,7 +813,8 @@ def complete_modes(E, case, path, req_probe):
             m['OSNR'] = 15
             out.append(m)
             continue
-        fr = fresh_propagation(E, path, req_probe, m['baud_rate'], m.get('equalization_offset_db', 0), 0.15)
+        fr = fresh_propagation(E, path, req_probe, m['baud_rate'], m.get('equalization_offset_db', 0), 0.15,
+                               spectrum if k == case['mode'] else None)
         frs.append(fr)
         tabs = []
         for j, key in enumerate(('cd', 'pmd', 'pdl')):
@@ -805,7 +847,9 @@ def complete_modes(E, case, path, req_probe):
     for k, (m, lm, fr) in enumerate(zip(out, E.lib(), frs)):
         if fr is None:
             continue
-        g = rx_g01(fr['raw01'], contrib, m['tx_osnr'])
+        if len(fr['raw01']) != len(contrib):
+            continue                                                  # a mode other than the requested one (uniform comb)
+        g = rx_g01(fr['raw01'], contrib, tx_list if (tx_list and k == case['mode']) else m['tx_osnr'])
         met = metric_py(g, pen_py(lm['penalties'], fr))
         if math.isinf(met) or math.isnan(met):
             met = min(g)
@@ -848,7 +892,12 @@ def drive_decision(case):
     probe = rq.correct_json_route_list(E.net, requests_from_json({'path-request': [pj]}, E.eq))
     pths = rq.compute_path_dsjctn(E.net, E.eq, probe, [])
     path = pths[0]
-    modes = complete_modes(E, case, path, probe[0])
+    spec = tx_list = None
+    if case.get('spectrum') and case['mode'] is not None:
+        from gnpy.tools.json_io import _spectrum_from_json
+        spec = _spectrum_from_json(copy.deepcopy(case['spectrum']))
+        tx_list = [float(spec[f].tx_osnr) for f in sorted(spec)]          # each channel's own transmitter OSNR
+    modes = complete_modes(E, case, path, probe[0], spec, tx_list)
     E.set_modes([clean_mode(m) for m in modes])
     lib = E.lib()
     obs = {}
@@ -859,6 +908,9 @@ def drive_decision(case):
         return obs
     rqs = rq.correct_json_route_list(E.net, rqs)
     req = rqs[0]
+    if spec:
+        req.initial_spectrum = spec                                       # as designed_network / the transmission example do
+    obs['tx_list'] = tx_list
     designed = {el.uid: el.effective_gain for el in path if isinstance(el, elements.Edfa)}
     # ---- instrumentation: every receiver evaluation (calc_penalties on a receiving transceiver) and every propagation
     evals, iters_log = [], []
@@ -909,7 +961,7 @@ def drive_decision(case):
     obs['network_untouched'] = designed == {el.uid: el.effective_gain for el in path if isinstance(el, elements.Edfa)}
     # ---- fresh, independent figures for the model
     rpath = rq.find_reversed_path(path)
-    fq_ = channel_freqs(probe[0])
+    fq_ = sorted(spec) if spec else channel_freqs(probe[0])
     obs['contrib'], obs['rcontrib'] = add_drop_contrib(E, path, fq_), add_drop_contrib(E, rpath, fq_)
     obs['margin'] = E.eq['SI']['default'].sys_margins
     roll = E.eq['SI']['default'].roll_off
@@ -924,9 +976,10 @@ def drive_decision(case):
                                 for k, m in enumerate(lib) if float(m['min_spacing']) <= pr.spacing}
     else:
         m = lib[case['mode']]
-        obs['fresh_fixed'] = fresh_propagation(E, path, pr, m['baud_rate'], m['equalization_offset_db'], m['roll_off'])
+        obs['fresh_fixed'] = fresh_propagation(E, path, pr, m['baud_rate'], m['equalization_offset_db'], m['roll_off'], spec)
         if case['bidir']:
-            obs['fresh_fixed_rev'] = fresh_propagation(E, rpath, pr, m['baud_rate'], m['equalization_offset_db'], m['roll_off'])
+            obs['fresh_fixed_rev'] = fresh_propagation(E, rpath, pr, m['baud_rate'], m['equalization_offset_db'], m['roll_off'],
+                                                       spec)
     obs['_lib'] = [{'format': m['format'], 'penalties': m['penalties']} for m in lib]
     return obs
 
@@ -948,10 +1001,11 @@ def term_decision(case, obs, observed=False):
     if case['mode'] is not None:
         m = modes[case['mode']]
         fr = obs['fresh_fixed']
-        fwd = figs_lit(rx_g01(fr['raw01'], obs['contrib'], m['tx_osnr']), fr)
+        tx = obs.get('tx_list') or m['tx_osnr']
+        fwd = figs_lit(rx_g01(fr['raw01'], obs['contrib'], tx), fr)
         if case['bidir']:
             rr = obs['fresh_fixed_rev']
-            rev = '(Some ' + figs_lit(rx_g01(rr['raw01'], obs['rcontrib'], m['tx_osnr']), rr) + ')'
+            rev = '(Some ' + figs_lit(rx_g01(rr['raw01'], obs['rcontrib'], tx), rr) + ')'
         else:
             rev = 'None'
         return f"fixed_case {fl(float(m['OSNR']))} {fl(float(margin))} {tabs_lit(m['tabs'])} {fwd} {rev}"
@@ -1156,7 +1210,7 @@ def own_oracles(ctx, case, obs):
         if snap is None:
             continue
         for k, (g, r) in enumerate(zip(snap['g01'], snap['raw01'])):
-            a, b = inv(g), inv(r) + contrib[k] + inv(fin['tx_osnr'])
+            a, b = inv(g), inv(r) + contrib[k] + inv(obs['tx_list'][k] if obs.get('tx_list') else fin['tx_osnr'])
             if abs(a - b) > 1e-9 * max(a, b):
                 ctx.violation('noise_not_counted_once',
                               f'{name} channel {k}: 1/GSNR_rx = {a:.12g} but line + add + drop + tx = {b:.12g} '
@@ -1233,7 +1287,7 @@ def judged(case, obs, model, observed=False):
         m = modes[case['mode']]
         frs = [(obs['fresh_fixed'], obs['contrib'])] + ([(obs['fresh_fixed_rev'], obs['rcontrib'])] if case['bidir'] else [])
         for fr, c in frs:
-            raw = metric_py(rx_g01(fr['raw01'], c, m['tx_osnr']), pen_py(lib[case['mode']]['penalties'], fr))
+            raw = metric_py(rx_g01(fr['raw01'], c, obs.get('tx_list') or m['tx_osnr']), pen_py(lib[case['mode']]['penalties'], fr))
             if tie(raw, m['OSNR'] + margin):
                 return False
         return True
@@ -1309,6 +1363,8 @@ def run(ctx):
     ctx.rule = ('(a) random receivers x histories of update_snr calls; (b) random penalty lists x impairment arrays; '
                 '(c) whole decisions: random 2-4 ROADM networks (random amplifier p_max, ROADM add/drop OSNR, PMD, PDL), random '
                 'transceiver libraries of 1-8 modes (shared baud rates, offsets, thresholds within 0.02 dB of the real metric, '
+                '40 % of the fixed-mode requests with a user-defined initial spectrum of 1-3 partitions (own slot width, baud rate, '
+                'power offset, tx power, tx OSNR), '
                 'penalty tables ending below / at / above the path impairments), fixed or automatic mode, uni/bidirectional; '
                 'non-trivial = a decision with at least two explored modes, or a bidirectional one, or a penalty table in play; '
                 'distinct by content hash')
@@ -1352,6 +1408,10 @@ def run(ctx):
             ctx.case(case_public(c), nfw > 1 or c['bidir'] or any(any(m['tabs']) for m in c['modes_final']))
             ctx.count('decision_auto' if c['mode'] is None else 'decision_fixed')
             ctx.count('decision_bidir' if c['bidir'] else 'decision_unidir')
+            if obs.get('tx_list'):
+                ctx.count('decision_with_initial_spectrum')
+                if len(set(obs['tx_list'])) > 1:
+                    ctx.count('initial_spectrum_with_several_tx_osnr')
             ctx.count('reason_' + str(obs['reason']))
             ctx.count('modes_evaluated', nfw)
             ctx.count('propagations_in_loop', len(obs['iters']))
